@@ -1,5 +1,6 @@
 import Kopf.Drv.Json
 import Kopf.Drv.C05
+import Kopf.Drv.C11
 namespace Kopf.Drv
 def echoHandler : DrvHandler := fun op args =>
   if op == "echo" then
@@ -7,5 +8,5 @@ def echoHandler : DrvHandler := fun op args =>
     | [j] => (toJ j).map (fun v => ok (ofJ v))
     | _ => none
   else none
-def allHandlers : List DrvHandler := [echoHandler, C05.handle]
+def allHandlers : List DrvHandler := [echoHandler, C05.handle, C11.handle]
 end Kopf.Drv
